@@ -4,8 +4,12 @@
 #include "viewsrv.hpp"
 #include <mdspan/mdarray.hpp>
 namespace vh {
+// exact type identity (size_t is `unsigned long` here; `unsigned long long` is a different type of the same width)
 template <class I> std::string ityName() {
-  std::string s = std::is_signed_v<I> ? "i" : "u"; return s + std::to_string(sizeof(I) * 8);
+  if (std::is_same_v<I, signed char>) return "i8"; if (std::is_same_v<I, unsigned char>) return "u8"; if (std::is_same_v<I, short>) return "i16"; if (std::is_same_v<I, unsigned short>) return "u16";
+  if (std::is_same_v<I, int>) return "i32"; if (std::is_same_v<I, unsigned>) return "u32"; if (std::is_same_v<I, long>) return "i64"; if (std::is_same_v<I, unsigned long>) return "u64";
+  if (std::is_same_v<I, long long>) return "i64ll"; if (std::is_same_v<I, unsigned long long>) return "u64ll";
+  return "other";
 }
 template <class E> std::string descExt() { return "idx=" + ityName<typename E::index_type>() + " pat=" + patOf<E>(); }
 template <class L> std::string layFull() {
